@@ -4,7 +4,7 @@
 # (must fail) and the checks with CUQI_REPO pointing at the copy (should report VIOLATION), then runs the demo on /repo (must pass).
 # Evidence files are saved and restored (evidence must come from runs against /repo itself).
 # With TRY_IN_PLACE=1 the patch is applied to /repo itself and reverted afterwards (the procedure of the brief).
-S=$1; shift
+S=$(readlink -f "$1"); shift
 if [ "$TRY_IN_PLACE" = "1" ]; then
   R=/repo
   cd /repo || exit 2
